@@ -59,6 +59,7 @@ class PathWorld:
         self.root = root
         self.rng = random.Random(seed)
         self.shas = {}
+        self.extra = []
         self.counter = 0
         os.makedirs(root, exist_ok=True)
         # the paths live in two folders; in every third history targets are given RELATIVE to the
@@ -99,14 +100,21 @@ class PathWorld:
             junk = tdf_bytes[:k] + bytes([tdf_bytes[k] ^ 0x40]) + tdf_bytes[k + 1:]
         for i, k in enumerate(kinds, start=1):
             p = self.paths[i]
-            if os.path.exists(p):
+            if os.path.lexists(p):
                 os.unlink(p)
             if k == "empty":
                 open(p, "wb").close()
             elif k == "nontdf":
                 open(p, "wb").write(junk)
             elif k == "tdf":
-                open(p, "wb").write(tdf_bytes)
+                if self.rng.random() < 0.3:
+                    # the path is a symbolic link to the file (a copy is a file of its own all the same)
+                    real = p + ".real"
+                    open(real, "wb").write(tdf_bytes)
+                    os.symlink(real, p)
+                    self.extra.append(real)
+                else:
+                    open(p, "wb").write(tdf_bytes)
 
     def observe(self):
         out = []
@@ -229,8 +237,8 @@ def run_tour(labs, root, seed):
     w.setup(calls[0]["kinds"])
     init = w.observe()
     steps = [w.execute(c) for c in calls[1:]]
-    for p in w.paths.values():
-        if os.path.exists(p):
+    for p in list(w.paths.values()) + w.extra:
+        if os.path.lexists(p):
             os.unlink(p)
     return dict(init=init, steps=steps, meta=dict(labels=labs, seed=seed))
 
